@@ -6,13 +6,18 @@ package obfs4
 
 import (
 	"bytes"
+	"encoding/hex"
+	"errors"
 	"fmt"
 	"net"
+	"strconv"
 	"sync"
 	"testing"
 	"time"
 
 	"pgregory.net/rapid"
+
+	"gitlab.torproject.org/tpo/anti-censorship/pluggable-transports/goptlib"
 
 	"gitlab.com/yawning/obfs4.git/internal/verifkit/drive"
 	"gitlab.com/yawning/obfs4.git/internal/verifkit/ev"
@@ -53,6 +58,8 @@ func vfClientMustFail(n *wire.Net, cl *drive.Endpoint, endByDeadline bool, what 
 	}
 	return ""
 }
+
+var vfErrInjected = errors.New("verif: injected network error")
 
 var (
 	vfTamperMu   sync.Mutex
@@ -122,7 +129,7 @@ func vfC02Case(rt *rapid.T, c *ev.Collector) {
 	br, _ := vfGenBridge(rt, []int{0, 0, 0, 1})
 	ent := vfEnt(rapid.Uint64().Draw(rt, "refEntropy"))
 	legacy := rapid.Bool().Draw(rt, "legacyBridgeLine")
-	scenario := rapid.SampledFrom([]string{"genuine", "wrong-nodeid-bit", "wrong-pubkey-bit", "impostor", "tamper", "tamper"}).Draw(rt, "scenario")
+	scenario := rapid.SampledFrom([]string{"genuine", "wrong-nodeid-bit", "wrong-pubkey-bit", "impostor", "tamper", "tamper", "retry-after-failure"}).Draw(rt, "scenario")
 	endByDeadline := rapid.Bool().Draw(rt, "endByDeadline")
 	var desc string
 	segments := 1
@@ -200,6 +207,87 @@ func vfC02Case(rt *rapid.T, c *ev.Collector) {
 			segments = 3
 		}
 		desc = fmt.Sprintf("genuine x%d", conns)
+
+	case "retry-after-failure":
+		// One client factory: a first attempt fails part-way (the network fails while
+		// the handshake is being written, or the server never answers), then a second
+		// connection is made through the same factory.  The second must work and must
+		// not reuse the ephemeral key the first one has already put on the wire.
+		sf, err := vfServerFactory(br)
+		if err != nil {
+			rt.Fatalf("VIOL[c02-serverfactory]: %v", err)
+		}
+		cf, cargs1, err := vfClientArgs(br, legacy, br.IAT)
+		if err != nil {
+			rt.Fatalf("VIOL[c02-parseargs]: %v", err)
+		}
+		n1 := wire.New()
+		defer n1.Shutdown()
+		failKind := rapid.SampledFrom([]string{"write-error", "write-error", "silent-server", "eof"}).Draw(rt, "firstFailure")
+		if failKind == "write-error" {
+			n1.WriteErrAt(wire.A, int64(rapid.SampledFrom([]int{0, 1, 31, 32, 33, 40, 100, 140, 141}).Draw(rt, "writeFailsAt")), vfErrInjected)
+		}
+		cl1 := drive.Start(n1, wire.A, func() (net.Conn, error) { return cf.Dial("tcp", "192.0.2.1:1", vfDialFn(n1.Conn(wire.A)), cargs1) })
+		if err := n1.WaitQuiescent(wire.A); err != nil {
+			rt.Fatalf("VIOL[c02-wedge]: %v", err)
+		}
+		if !cl1.SetupDone() {
+			if failKind == "eof" {
+				n1.EOF(wire.B)
+			} else if !n1.Fire(wire.A) {
+				rt.Fatalf("VIOL[c02-no-deadline]: client is waiting for the handshake without an armed deadline")
+			}
+			if err := n1.WaitQuiescent(wire.A); err != nil {
+				rt.Fatalf("VIOL[c02-wedge]: %v", err)
+			}
+		}
+		if pv, st := cl1.Panic(); pv != nil {
+			rt.Fatalf("VIOL[c02-panic]: %v\n%s", pv, st)
+		}
+		if !cl1.SetupDone() || cl1.SetupErr() == nil {
+			rt.Fatalf("VIOL[c02-handshake-completed]: first attempt (%s) did not fail: done=%v err=%v", failKind, cl1.SetupDone(), cl1.SetupErr())
+		}
+		x1 := n1.Head(wire.A)
+		// second connection through the same factory (new ParseArgs, as obfs4proxy does per connection)
+		other := rapid.Bool().Draw(rt, "secondUsesLegacyLine")
+		args2 := &pt.Args{}
+		if other {
+			args2.Add(nodeIDArg, hex.EncodeToString(br.ID.NodeID))
+			args2.Add(publicKeyArg, hex.EncodeToString(br.ID.Pub))
+		} else {
+			args2.Add(certArg, (&obfs4ServerCert{raw: append(append([]byte(nil), br.ID.NodeID...), br.ID.Pub...)}).String())
+		}
+		args2.Add(iatArg, strconv.Itoa(br.IAT))
+		cargs2, err := cf.ParseArgs(args2)
+		if err != nil {
+			rt.Fatalf("VIOL[c02-parseargs]: %v", err)
+		}
+		n2 := wire.New()
+		defer n2.Shutdown()
+		sv := drive.Start(n2, wire.B, func() (net.Conn, error) { return sf.WrapConn(n2.Conn(wire.B)) })
+		if err := n2.WaitQuiescent(wire.B); err != nil {
+			rt.Fatalf("VIOL[c02-wedge]: %v", err)
+		}
+		cl2 := drive.Start(n2, wire.A, func() (net.Conn, error) { return cf.Dial("tcp", "192.0.2.1:1", vfDialFn(n2.Conn(wire.A)), cargs2) })
+		if err := n2.WaitQuiescent(wire.A, wire.B); err != nil {
+			rt.Fatalf("VIOL[c02-wedge]: %v", err)
+		}
+		x2 := n2.Head(wire.A)
+		if len(x1) >= 32 && len(x2) >= 32 && bytes.Equal(x1[:32], x2[:32]) {
+			rt.Fatalf("VIOL[c02-ephemeral-key-reused]: a connection made after a failed attempt (%s) sends the ephemeral key representative %x that the failed attempt had already put on the wire", failKind, x1[:32])
+		}
+		n2.ReleaseAll(wire.A)
+		if err := n2.WaitQuiescent(wire.A, wire.B); err != nil {
+			rt.Fatalf("VIOL[c02-wedge]: %v", err)
+		}
+		n2.ReleaseAll(wire.B)
+		if err := n2.WaitQuiescent(wire.A, wire.B); err != nil {
+			rt.Fatalf("VIOL[c02-wedge]: %v", err)
+		}
+		if !cl2.SetupDone() || cl2.SetupErr() != nil || !sv.SetupDone() || sv.SetupErr() != nil {
+			rt.Fatalf("VIOL[c02-genuine-failed]: the connection after a failed attempt (%s) did not complete: client done=%v err=%v, server done=%v err=%v", failKind, cl2.SetupDone(), cl2.SetupErr(), sv.SetupDone(), sv.SetupErr())
+		}
+		desc = fmt.Sprintf("retry after %s (%d bytes of the first handshake were sent)", failKind, len(x1))
 
 	case "wrong-nodeid-bit", "wrong-pubkey-bit":
 		sf, err := vfServerFactory(br)
@@ -382,9 +470,9 @@ func vfC02Case(rt *rapid.T, c *ev.Collector) {
 func TestVerifC02Scenarios(t *testing.T) {
 	vfSetup(t)
 	c := ev.For("C02")
-	c.Rule("scenarios: generated identity, node ID, seed, bridge-line form and chunk plans; scenario in {genuine (1-3 sequential connections, echo both ways, all ephemeral representatives distinct), one bit of the client's node ID / public key flipped (real server), impostor = reference server that knows the public bridge line only (AUTH from its own key, random AUTH, AUTH of another handshake, genuine AUTH with another Y', low-order Y'), tamper = modification of a genuine response in flight (blind: one bit of Y'|AUTH|M_S|MAC_S, a padding bit, insert / delete one byte, truncate, substitute another connection's response; informed: one bit of Y'|AUTH with mark and MAC recomputed from the public bridge line) with server payload queued behind it}; oracle: genuine => Dial/WrapConn succeed and data flows; otherwise, after the exchange ends by EOF or the fired client deadline, Dial has returned an error and zero application bytes surfaced; non-trivial = any non-genuine scenario or a genuine one delivered in >= 3 segments; fingerprint = scenario + parameters")
+	c.Rule("scenarios: generated identity, node ID, seed, bridge-line form and chunk plans; scenario in {retry-after-failure (one client factory: a first attempt fails because the network fails while the handshake is written / the server stays silent / EOF, then a second connection through the same factory must complete and must not reuse the representative already sent), genuine (1-3 sequential connections, echo both ways, all ephemeral representatives distinct), one bit of the client's node ID / public key flipped (real server), impostor = reference server that knows the public bridge line only (AUTH from its own key, random AUTH, AUTH of another handshake, genuine AUTH with another Y', low-order Y'), tamper = modification of a genuine response in flight (blind: one bit of Y'|AUTH|M_S|MAC_S, a padding bit, insert / delete one byte, truncate, substitute another connection's response; informed: one bit of Y'|AUTH with mark and MAC recomputed from the public bridge line) with server payload queued behind it}; oracle: genuine => Dial/WrapConn succeed and data flows; otherwise, after the exchange ends by EOF or the fired client deadline, Dial has returned an error and zero application bytes surfaced; non-trivial = any non-genuine scenario or a genuine one delivered in >= 3 segments; fingerprint = scenario + parameters")
 	c.Assume("cryptographic strength (HMAC, X25519, SHA-256) is assumed; what is tested is that every check is wired in and bound to the right inputs")
-	for _, s := range []string{"genuine", "wrong-nodeid-bit", "wrong-pubkey-bit", "impostor", "tamper"} {
+	for _, s := range []string{"genuine", "wrong-nodeid-bit", "wrong-pubkey-bit", "impostor", "tamper", "retry-after-failure"} {
 		c.Floor("scenario-"+s, 0.08)
 	}
 	rapid.Check(t, func(rt *rapid.T) { vfC02Case(rt, c) })
